@@ -117,6 +117,8 @@ func variants() []variant {
 	return []variant{
 		{name: "default", res: deep, btp: bootstrapping.ParametersLiteral{LogN: ip(10), LogMessageRatio: mr(10)}, inLevels: []int{0, 1, 2}, batches: []int{1}, stages: true, quick: true},
 		{name: "ringswitch", res: n9, btp: bootstrapping.ParametersLiteral{LogN: ip(10), LogMessageRatio: mr(9)}, inLevels: []int{0, 1}, batches: []int{1, 2}, slotOffs: []int{0, 1}, quick: true},
+		// a circuit built for fewer slots than the (smaller) residual ring holds: both packing stages are needed
+		{name: "ringswitch-fewslots", res: n9, btp: bootstrapping.ParametersLiteral{LogN: ip(10), LogSlots: ip(7), LogMessageRatio: mr(9)}, inLevels: []int{0}, batches: []int{1, 2}, slotOffs: []int{1, 2}, quick: true},
 		{name: "ci", res: ci, btp: bootstrapping.ParametersLiteral{LogN: ip(10), LogMessageRatio: mr(9)}, inLevels: []int{0}, batches: []int{1}, quick: true},
 		{name: "packed", res: base, btp: bootstrapping.ParametersLiteral{LogN: ip(10), LogSlots: ip(8), LogMessageRatio: mr(10)}, inLevels: []int{0}, batches: []int{1, 3, 4}, slotOffs: []int{1, 2, 3}},
 		{name: "packed-ringswitch", res: n7, btp: bootstrapping.ParametersLiteral{LogN: ip(10), LogSlots: ip(8), LogMessageRatio: mr(7)}, inLevels: []int{0}, batches: []int{2, 4}, slotOffs: []int{0, 1}},
